@@ -40,7 +40,12 @@ struct SIMDVector {
     FASTOR_INLINE void aligned_load(const T *data)  { std::copy(data,data+Size,value); }
     FASTOR_INLINE void aligned_store(T *data) const { std::copy(value,value+Size,data);}
 
-    FASTOR_INLINE void mask_load(const scalar_value_type *a, uint8_t mask, bool Aligned=false) {
+    // one mask bit per lane: an 8-bit mask cannot address the upper lanes of a vector with more than 8 lanes
+    using mask_type = typename std::conditional<(Size>32), uint64_t,
+                        typename std::conditional<(Size>16), uint32_t,
+                            typename std::conditional<(Size>8), uint16_t, uint8_t>::type>::type>::type;
+
+    FASTOR_INLINE void mask_load(const scalar_value_type *a, mask_type mask, bool Aligned=false) {
         // perhaps very inefficient but they never get used
         int maska[Size];
         mask_to_array(mask,maska);
@@ -52,7 +57,7 @@ struct SIMDVector {
         }
         unused(Aligned);
     }
-    FASTOR_INLINE void mask_store(scalar_value_type *a, uint8_t mask, bool Aligned=false) const {
+    FASTOR_INLINE void mask_store(scalar_value_type *a, mask_type mask, bool Aligned=false) const {
         // perhaps very inefficient but they never get used
         int maska[Size];
         mask_to_array(mask,maska);
